@@ -1143,6 +1143,15 @@ func (e *SpecEnv) call(x *spec.Call) Val {
 			_, unbox := vc.evBox(srt)
 			return Val{T: t, Sort: sortIfSpec(t, srt), Term: fmt.Sprintf("(%s (ev_arg (select %s %s)))", unbox, e.state().cells[tc], argT(0))}
 		}
+	case "evI1":
+		// evI1(k): the first integer argument of the call recorded as event k
+		if e.noState {
+			return e.fail(x, "a spec function cannot read the effect trace (it is defined once, not per state)")
+		}
+		if need(1) {
+			tc, _ := vc.traceCells(e.state())
+			return Val{T: I, Term: fmt.Sprintf("(ev_i1 (select %s %s))", e.state().cells[tc], argT(0))}
+		}
 	case "evB1", "evFrom":
 		// evB1(k): the first boolean argument of the call recorded as event k; evFrom(k): the index of the event whose
 		// pointer result is the receiver (or first pointer argument) of that call, -1 if there is none
